@@ -130,8 +130,16 @@ def plan(tier, seed):
         cfg["fluid"] = {"fluid_name": ["PROPYLENEGLYCOL", "ETHYLENEGLYCOL", "METHYLALCOHOL"][k % 3], "concentration_percent": float(round(g.uniform(20, 35), 1)), "temperature": 20.0}
         cfg["soil"]["undisturbed_temp"] = float(round(g.uniform(7.0, 12.0), 2))
         cfg["design"]["min_eft"] = [0.0, 0, -2.0][k % 3]
-        cfg["design"]["max_eft"] = float(round(cfg["soil"]["undisturbed_temp"] + g.uniform(14, 24), 1))
-        cfg["loads_desc"]["family"] = ["heating_only", "sinus", "atlanta_shift"][k % 3]
+        if k % 2 == 0:
+            cfg["design"]["max_eft"] = float(round(cfg["soil"]["undisturbed_temp"] + g.uniform(14, 24), 1))
+            cfg["loads_desc"]["family"] = ["heating_only", "sinus", "atlanta_shift"][k % 3]
+        else:
+            # both limits in play: the upper limit about as far from the ground temperature as the lower one, mixed loads - a design
+            # sized for one limit alone then breaks the other
+            margin = cfg["soil"]["undisturbed_temp"] - float(cfg["design"]["min_eft"])
+            cfg["design"]["max_eft"] = float(round(cfg["soil"]["undisturbed_temp"] + margin * g.uniform(0.9, 1.3), 1))
+            cfg["loads_desc"]["family"] = "sinus"
+            cfg["loads_desc"]["bias"] = float(round(g.uniform(0.1, 0.35), 2))  # extraction-dominated with summer rejection: the lower limit governs
         cfg["loads_desc"]["scale"] = scale_loads_for(cfg, cfg["_class"], g)
         if k % 2 == 1:
             cfg["loads_desc"]["form"] = "int"  # whole watts as Python ints (JSON integers)
@@ -139,7 +147,8 @@ def plan(tier, seed):
         cfgs.append(cfg)
     # whole-number inputs given as ints (what a hand-written JSON input looks like): lengths, spacings, heights, limits, flow
     for k in range({"quick": 5, "thorough": 20}[tier]):
-        method = ["NEARSQUARE", "RECTANGLE", "BIRECTANGLE", "BIZONEDRECTANGLE", "RECTANGLE"][k % 5]
+      method = ["NEARSQUARE", "RECTANGLE", "BIRECTANGLE", "BIZONEDRECTANGLE", "RECTANGLE"][k % 5]
+      for _attempt in range(12):
         cfg = make_cfg(g, method, GP.PIPES[k % 4], ["BOREHOLE", "SYSTEM"][k % 2], ["interior", "small", "large", "interior", "tiny"][k % 5], k % 2 == 0, 49)
         geo = cfg["geometric_constraints"]
         for key in ("length", "width", "b", "b_min", "b_max", "b_max_x", "b_max_y", "max_height", "min_height"):
@@ -159,7 +168,20 @@ def plan(tier, seed):
         cfg["soil"]["rho_cp"] = int(cfg["soil"]["rho_cp"])
         cfg["loads_desc"]["scale"] = scale_loads_for(cfg, cfg["_class"], g)
         cfg["_class"] = "int-inputs"
+        # rounding the spacings to whole metres can leave a window that holds no integer row count (the generators then raise by
+        # design): keep only configurations whose candidate domain can be built
+        try:
+            import contextlib
+            import io
+            import warnings
+
+            with warnings.catch_warnings(), contextlib.redirect_stdout(io.StringIO()):
+                warnings.simplefilter("ignore")
+                GC.build_manager(cfg, loads=[0.0] * 8760)
+        except ValueError:
+            continue
         cfgs.append(cfg)
+        break
     return cfgs
 
 
